@@ -21,6 +21,8 @@ class QBackend:
         return '(%s # %d)' % (coq_z(f.numerator), f.denominator)
 
     def binop(self, op, a, b):
+        if op in ('//', '%'):
+            raise Untranslatable('integer division in rational arithmetic')
         return {'+': '(Qplus %s %s)', '-': '(Qminus %s %s)', '*': '(Qmult %s %s)', '/': '(Qdiv %s %s)'}[op] % (a, b)
 
     def neg(self, a):
@@ -46,7 +48,9 @@ class ZBackend:
     def binop(self, op, a, b):
         if op == '/':
             raise Untranslatable('true division in integer arithmetic')
-        return {'+': '(Z.add %s %s)', '-': '(Z.sub %s %s)', '*': '(Z.mul %s %s)'}[op] % (a, b)
+        # Python's // and % on ints are floor division / modulo with the sign of the divisor, as Z.div / Z.modulo
+        return {'+': '(Z.add %s %s)', '-': '(Z.sub %s %s)', '*': '(Z.mul %s %s)', '//': '(Z.div %s %s)',
+                '%': '(Z.modulo %s %s)'}[op] % (a, b)
 
     def neg(self, a):
         return '(Z.opp %s)' % a
@@ -68,6 +72,8 @@ class FloatBackend:
         return '(%s)%%float' % float(v).hex()
 
     def binop(self, op, a, b):
+        if op in ('//', '%'):
+            raise Untranslatable('integer division in float arithmetic')
         return {'+': '(PrimFloat.add %s %s)', '-': '(PrimFloat.sub %s %s)', '*': '(PrimFloat.mul %s %s)',
                 '/': '(PrimFloat.div %s %s)'}[op] % (a, b)
 
@@ -83,7 +89,7 @@ class FloatBackend:
                 '==': '(PrimFloat.eqb %(a)s %(b)s)', '!=': '(negb (PrimFloat.eqb %(a)s %(b)s))'}[op] % {'a': a, 'b': b}
 
 
-OPS = {ast.Add: '+', ast.Sub: '-', ast.Mult: '*', ast.Div: '/'}
+OPS = {ast.Add: '+', ast.Sub: '-', ast.Mult: '*', ast.Div: '/', ast.FloorDiv: '//', ast.Mod: '%'}
 CMPS = {ast.Lt: '<', ast.LtE: '<=', ast.Gt: '>', ast.GtE: '>=', ast.Eq: '==', ast.NotEq: '!='}
 NOOP_CALLS = ('warning_message', 'status_message', 'print')
 
